@@ -320,6 +320,10 @@ func newSrvRig(o srvOpts) (*srvRig, error) {
 	if err := s.RegisterFunctionName("Fn", "Do", func(ctx context.Context, a *SArgs, rp *SReply) error { r.observe(ctx, a); return svc.body(a, rp) }, ""); err != nil {
 		return nil, err
 	}
+	// the registered-function dispatch style with pooled (Reset-able) argument and reply types
+	if err := s.RegisterFunctionName("Fn", "Pooled", func(ctx context.Context, a *PArgs, rp *PReply) error { return svc.Pooled(ctx, a, rp) }, ""); err != nil {
+		return nil, err
+	}
 	s.AddHandler("Rt", "Do", func(ctx *server.Context) error {
 		var a SArgs
 		if err := ctx.Bind(&a); err != nil {
